@@ -1,6 +1,6 @@
 /-
   C19 driver.  One request = one history:
-    {"variant": {"ctx":b,"dir":b,"add":b,"stat":b}, "dir": b, "ops": [op, …]}
+    {"variant": {"ctx":b,"dir":b,"add":b,"stat":b,"poll":b}, "dir": b, "ops": [op, …]}
   reply:
     {"init": snapshot, "steps": [{"res":…, "view":[…], "mem":[…], "disk":…, "reload":[…]}, …],
      "sent": [...], "issued": [...], "retired": [...]}
@@ -99,8 +99,15 @@ def outcomeOf (j : Json) : Except String Outcome :=
   | .str "refuse" => .ok .refuse
   | _ => do return .accept (← (← reqKey j "accept").getNat?)
 
-def stsOf (j : Json) : Except String (List Status) := do
-  (← (← reqKey j "sts").getArr?).toList.mapM fun x => do statusOfString (← x.getStr?)
+/-- a status name | "fault:HTTPError" | "fault:ConnectionError" | "ignored" -/
+def ansOfString : String → Except String Ans
+  | "fault:HTTPError" => .ok (.fault .httpError)
+  | "fault:ConnectionError" => .ok (.fault .connectionError)
+  | "ignored" => .ok .ignored
+  | s => do return .st (← statusOfString s)
+
+def stsOf (j : Json) : Except String (List Ans) := do
+  (← (← reqKey j "sts").getArr?).toList.mapM fun x => do ansOfString (← x.getStr?)
 
 def kindOf : String → Except String ListKind
   | "successful" => .ok .successful
@@ -124,7 +131,8 @@ def opOf (j : Json) : Except String Op := do
 
 def variantOf (j : Json) : Except String Variant := do
   return { ctxFix := ← (← reqKey j "ctx").getBool?, dirFix := ← (← reqKey j "dir").getBool?,
-           addFix := ← (← reqKey j "add").getBool?, statFix := ← (← reqKey j "stat").getBool? }
+           addFix := ← (← reqKey j "add").getBool?, statFix := ← (← reqKey j "stat").getBool?,
+           pollFix := ← (← reqKey j "poll").getBool? }
 
 /-! output -/
 def optNatJ : Option Nat → Json
@@ -173,6 +181,7 @@ def errName : Err → String
   | .runtimeError => "RuntimeError"
   | .assertionError => "AssertionError"
   | .httpError => "HTTPError"
+  | .connectionError => "ConnectionError"
 
 def resJ : Res → Json
   | .ok => .str "ok"
